@@ -193,7 +193,9 @@ def g_e2e_case(rng, maxlen=12):
     keys = ["thread-" + t for t in tids]
     n_procs = rng.choice([1, 1, 2, 2, 3])
     ext = cfg["has_store"] and rng.random() < 0.8       # somebody else uses the datastore as well
-    focus = cfg["has_store"] and rng.random() < 0.4     # a case about threads: loadable configs, valid thread ids
+    long = cfg["has_store"] and rng.random() < 0.08     # a long conversation that exists already, used and changed by others
+    ext = ext or long
+    focus = long or (cfg["has_store"] and rng.random() < 0.4)   # a case about threads: loadable configs, valid thread ids
     n_ctr = [0]
 
     def fresh(n):
@@ -213,9 +215,9 @@ def g_e2e_case(rng, maxlen=12):
         rng.shuffle(st)
         return st
 
-    if cfg["has_store"] and rng.random() < 0.5:         # threads that exist before this server is started
+    if cfg["has_store"] and (long or rng.random() < 0.5):   # threads that exist before this server is started
         cfg["store0"] = g_store(0.6)
-        if rng.random() < 0.1:   # a long conversation
+        if long:
             cfg["store0"] = [kv for kv in cfg["store0"] if kv[0] != keys[0]]
             cfg["store0"].append([keys[0],
                                   [{"role": "user", "content": "h%d" % i} for i in range(rng.choice([120, 600, 1500]))]])
@@ -240,7 +242,9 @@ def g_e2e_case(rng, maxlen=12):
             for k, v in st:
                 approx.setdefault(k, list(v))
             return {"op": "swap", "store": st}
-        key = rng.choice(keys * 4 + OTHER_KEYS[:3])
+        key = keys[0] if long and rng.random() < 0.6 else rng.choice(keys * 4 + OTHER_KEYS[:3])
+        if kind == "set" and long and rng.random() < 0.7:
+            kind = "append"
         if kind == "set":
             v = fresh(rng.choice([0, 0, 1, 2, 4]))
             approx[key] = list(v)
@@ -305,7 +309,7 @@ def g_e2e_case(rng, maxlen=12):
         # else: neither
         r = rng.random()
         if r < 0.7 or (focus and r < 0.95):
-            body["thread_id"] = rng.choice(tids if not focus else tids[:2] + tids[:1])
+            body["thread_id"] = rng.choice(tids if not focus else tids[:2] + tids[:1] * (4 if long else 1))
         elif r < 0.8:
             body["thread_id"] = rng.choice(TIDS_BAD)
         elif r < 0.85:
